@@ -207,6 +207,12 @@ func init() {
 				}
 				items = append(items, specItems("C14", sp, b, allStrats, nil, c14Oracle)...)
 			}
+			// cancellation while the output goes away: the render after the cancellation fails
+			for _, sp := range closingWritePrograms("c14") {
+				if strings.Contains(sp.Name, "-cancel-") {
+					items = append(items, specItems("C14", sp, 1, []int{mcrt.StratFIFO, mcrt.StratNewest}, []string{"fault:write"}, c14Oracle)...)
+				}
+			}
 			return items
 		},
 	})
@@ -222,6 +228,17 @@ func init() {
 			}
 			for _, sp := range c16Programs(tier) {
 				items = append(items, specItems("C16", sp, bound, allStrats, nil, func(sp *Spec, x *X, res *mcrt.Result) (string, string) {
+					if x.WaitStep == 0 {
+						return "wait-not-returned", "Progress.Wait did not return"
+					}
+					if x.EventCount("leak") > 0 {
+						return "leak", strings.Join(x.Notes, "; ")
+					}
+					return "", ""
+				})...)
+			}
+			for _, sp := range closingWritePrograms("c16") {
+				items = append(items, specItems("C16", sp, 1, []int{mcrt.StratFIFO, mcrt.StratNewest}, []string{"fault:write"}, func(sp *Spec, x *X, res *mcrt.Result) (string, string) {
 					if x.WaitStep == 0 {
 						return "wait-not-returned", "Progress.Wait did not return"
 					}
